@@ -120,7 +120,11 @@ class Prov:
         if r == 'use':
             return self.origins_operand(rv['op'], visiting)
         if r == 'ref' or r == 'rawptr':
-            return {('ref', place_key(rv['p']), ())}
+            pl, pp = place_key(rv['p'])
+            if pp and pp[-1] == ('*',):
+                # reborrow `&(*x)` / `&mut (*x)`: same referent as x
+                return self._origins(pl, pp[:-1], visiting)
+            return {('ref', (pl, pp), ())}
         if r == 'cast':
             inner = self.origins_operand(rv['op'], visiting)
             return {('cast', (rv['kind'], rv['ty']['s'], o), ()) for o in inner}
@@ -148,6 +152,45 @@ class Prov:
                 return self.origins_operand(rv['ops'][e[1]], visiting)
             return {('unknown', 'agg-field', ())}
         return {(kind, data, proj + (e,))}
+
+    # ------------------------------------------------------------------
+    def peel(self, origins, depth=6):
+        """replace `&place` origins by the origins of the place itself (treat borrows as the value)"""
+        out = set()
+        for o in origins:
+            if o[0] == 'ref' and not o[2] and depth > 0:
+                l, pr = o[1]
+                out |= self.peel(self._origins(l, pr, frozenset()), depth - 1)
+            elif o[0] == 'cast':
+                out |= self.peel({o[1][2]}, depth)
+            else:
+                out.add(o)
+        return out
+
+    def values_operand(self, op):
+        return self.peel(self.origins_operand(op))
+
+    def through(self, origins, passthrough, depth=8):
+        """peel, and additionally look through calls whose declared/resolved path matches the
+        `passthrough` regex by following their first argument (Deref::deref, as_str, into_iter, ...)"""
+        out = set()
+        work = [(o, depth) for o in self.peel(origins)]
+        while work:
+            o, d = work.pop()
+            if o[0] == 'call' and not o[2] and d > 0:
+                t = self.call_term(o)
+                c = t.get('callee')
+                names = []
+                if c:
+                    names.append(c['def']['path'])
+                    if c.get('resolved'):
+                        names.append(c['resolved']['def']['path'])
+                if any(passthrough.search(n) for n in names) and t['args']:
+                    for x in self.peel(self.origins_operand(t['args'][0])):
+                        work.append((x, d - 1))
+                    continue
+            out.add(o)
+        return out
 
     # ------------------------------------------------------------------
     def agg_rvalue(self, origin):
@@ -180,4 +223,8 @@ def fmt_origin(o, body=None):
         return 'const %r' % (data[1],)
     if kind == 'cast':
         return 'cast<%s>(%s)' % (data[1], fmt_origin(data[2], body))
+    if kind in ('binop', 'unop'):
+        return '%s %s%s' % (kind, data[2], ps)
+    if kind in ('agg', 'setdiscr', 'partial'):
+        return '%s%s' % (kind, ps)
     return '%s %s%s' % (kind, data, ps)
